@@ -232,6 +232,12 @@ Lemma gen_shake_fact : gen_shake_steps = [GIncAgeT; GIncAgeV; GShakeImpl; GClear
 Proof. reflexivity. Qed.
 Lemma gen_close_fact : gen_close_steps = [GMoveToValidation; GClearBoth].
 Proof. reflexivity. Qed.
+Lemma gen_tune_fact : forall u,
+  gen_tune_dss_open u = (u =? sentinel) /\ gen_tune_perc_open u = (u =? sentinel)
+  /\ gen_tune_dss_dynamic_typeid = true /\ gen_tune_perc_dynamic_typeid = true.
+Proof. intros. repeat split. Qed.
+Lemma gen_dflt_fact : gen_dflt_dss = 1 /\ gen_dflt_perc = 20.
+Proof. split; reflexivity. Qed.
 Lemma gen_shape_fact : shape_eqb gen_shake_impl_shape modelled_shape = true.
 Proof. reflexivity. Qed.
 
@@ -735,12 +741,23 @@ Lemma tune_fixed_fills : forall vs d p,
   /\ (vs = VsDss -> fst (tune_fixed vs d p) = if d =? sentinel then dflt_dss else d)
   /\ (d <> sentinel -> fst (tune_fixed vs d p) = d) /\ (p <> sentinel -> snd (tune_fixed vs d p) = p).
 Proof.
-  intros vs d p. unfold tune_fixed, tune_validation. cbn [fst snd]. repeat split.
+  intros vs d p. unfold tune_fixed. cbn [fst snd].
+  destruct (gen_tune_fact d) as (Hd & _ & Td & Tp). destruct (gen_tune_fact p) as (_ & Hp & _ & _).
+  rewrite Hd, Hp, Td, Tp. cbn [andb]. repeat split.
   - intros ->. cbn [vs_eqb]. rewrite andb_true_r. reflexivity.
   - intros ->. cbn [vs_eqb]. rewrite andb_true_r. reflexivity.
   - intros H. replace (d =? sentinel) with false by lia. reflexivity.
   - intros H. replace (p =? sentinel) with false by lia. reflexivity.
 Qed.
+
+Lemma tune_keeps_user_settings : forall vs d p, d <> sentinel -> p <> sentinel -> tune_fixed vs d p = (d, p).
+Proof.
+  intros vs d p Hd Hp. destruct (tune_fixed_fills vs d p) as (_ & _ & A & B).
+  specialize (A Hd). specialize (B Hp). destruct (tune_fixed vs d p) as [x y]. cbn [fst snd] in *. subst. reflexivity.
+Qed.
+
+Lemma tune_defaults : dflt_dss = 1 /\ dflt_perc = 20.
+Proof. exact gen_dflt_fact. Qed.
 
 (* ------------------------------------- a whole dss history is defined *)
 Section HistoryDefined.
